@@ -8,6 +8,7 @@ import TantivyModel.Model.Positions
 Line protocol of the C07 model (see harness/src/props/c07.rs):
 
 * `vint_enc <n>` → hex; `vint_dec <hex>` → `<n> <consumed>` | `err`
+* `vint32_enc <n>` (serialize_vint_u32) → hex; `vint32_dec <hex>` (read_u32_vint_no_advance) → `<n> <len>` | `err`
 * `numbits <n>`; `fn_to_id <n>`; `id_to_fn <i>`
 * `enc <opt> <docs> <tfs>` → hex of the term's postings bytes
 * `dec <opt> <doc_freq> <hex>` → `<docs>|<tfs>` | `err`
@@ -84,6 +85,21 @@ def handle : List String → String
     | some bs =>
       match VInt.dec VInt.STOP bs with
       | some (v, r) => toString v ++ " " ++ toString (bs.length - r.length)
+      | none => "err"
+    | none => "bad-op"
+  | ["vint32_enc", n] =>
+    match n.toNat? with
+    | some n =>
+      if n < 2 ^ 32 then
+        (hexOfNats (VInt.serializeU32 Gen.Postings.VINT32_LADDER Gen.Postings.VINT32_LAST_BYTES
+          Gen.Postings.VINT32_RADIX Gen.Postings.VINT32_STOP_BIT n)).getD "bad-op"
+      else "bad-op"
+    | none => "bad-op"
+  | ["vint32_dec", h] =>
+    match natsOfHex h with
+    | some bs =>
+      match VInt.readU32 Gen.Postings.VINT_STOP_BIT Gen.Postings.VINT32_MAX_LEN bs with
+      | some (v, n) => toString v ++ " " ++ toString n
       | none => "err"
     | none => "bad-op"
   | ["numbits", n] =>
